@@ -545,7 +545,10 @@ func (e *Exec) specCall(c *ast.CallExpr, env *SpecEnv) (Val, types.Type) {
 			case SV:
 				if t != nil {
 					if _, ok := t.Underlying().(*types.Map); ok {
-						return iv(e.mapLen(s.T)), tInt
+						r := e.mapLen(s.T)
+						e.addFact(mkEq(mkEq(r, "0"), mkEq(e.mapDom(s.T), "((as const (Array Int Bool)) false)")))
+						e.addFact(sx(">=", r, "0"))
+						return iv(r), tInt
 					}
 					if kindOf(t) == kString {
 						return iv(sx("strlen", s.T)), tInt
@@ -603,6 +606,18 @@ func (e *Exec) specCall(c *ast.CallExpr, env *SpecEnv) (Val, types.Type) {
 				return iv(r), types.Typ[types.String]
 			}
 			return v, t
+		case "visited":
+			// visited(k, key): key has already been handled by map-range loop k (readable after the loop too)
+			k, ok := intLit(c.Args[0])
+			if !ok || len(c.Args) != 2 {
+				return e.specErr("visited(k, key): k must be a loop ordinal literal")
+			}
+			vv, found := e.st.vars[fmt.Sprintf("$visited%d", k)].(SV)
+			if !found {
+				return e.specErr("visited(%d, ...): loop %d is not a map range loop that has started", k, k)
+			}
+			kv, kt := e.evalSpec1(c.Args[1], env)
+			return bv(mkSelect(vv.T, e.mapKey(kv, kt))), tBool
 		case "allocated":
 			// allocated(x): x is nil or refers to an object/array that exists in the state the clause is evaluated in
 			v, _ := e.evalSpec1(c.Args[0], env)
@@ -756,6 +771,22 @@ func (e *Exec) specCall(c *ast.CallExpr, env *SpecEnv) (Val, types.Type) {
 		}
 		if fn := e.lookupSpecFn(id.Name, env); fn != nil {
 			return e.applySpecFn(fn, c.Args, env)
+		}
+		// a package-level function of the package whose contract says 'pure'
+		if env.pkg != nil {
+			if fobj, ok := env.pkg.Types.Scope().Lookup(id.Name).(*types.Func); ok {
+				if ct := e.g.contractFor(fobj); ct != nil && ct.Pure {
+					args, _ := e.specArgs(c.Args, env)
+					sig := fobj.Type().(*types.Signature)
+					var resT types.Type
+					if sig.Results().Len() == 1 {
+						resT = sig.Results().At(0).Type()
+					} else {
+						resT = sig.Results()
+					}
+					return e.pureApp(fobj, nil, nil, args, resT), resT
+				}
+			}
 		}
 		// type conversion to a named type of the package: T(x)
 		if t := e.resolveType(id, env); t != nil && len(c.Args) == 1 {
